@@ -16,11 +16,7 @@ Section R.
   (* ---------------------------------------------------------------- *)
   (* characterising lemmas: one per kernel                             *)
 
-  Lemma K_db_dec_minus s d : db_dec_minus N s d = Rmax (- PI / 2) (s - d).
-  Proof. unfold db_dec_minus, N. num_R. reflexivity. Qed.
-  Lemma K_db_dec_plus s d : db_dec_plus N s d = Rmin (s + d) (PI / 2).
-  Proof. unfold db_dec_plus, N. num_R. reflexivity. Qed.
-  Lemma K_db_mask_dec e lo hi : db_mask_dec N e lo hi = Rltb lo e && Rltb e hi.
+  Lemma K_db_mask_dec e s d : db_mask_dec N e s d = Rltb (s - d) e && Rltb e (s + d).
   Proof. reflexivity. Qed.
   Lemma K_rb_dec_minus s d : rb_dec_minus N s d = Rmax (- PI / 2) (s - d).
   Proof. unfold rb_dec_minus, N. num_R. reflexivity. Qed.
@@ -42,10 +38,10 @@ Section R.
   Proof. reflexivity. Qed.
   Lemma K_sb_dRA_half d c : sb_dRA_half N d c = Rmin (2 * PI) (Rabs (d / c)).
   Proof. unfold sb_dRA_half, N. num_R. reflexivity. Qed.
-  Lemma K_sb_ra_diff e s : sb_ra_diff N e s = Rabs (e - s).
-  Proof. reflexivity. Qed.
-  Lemma K_sb_b_ra_diff e s : sb_b_ra_diff N e s = Rabs (e - s).
-  Proof. reflexivity. Qed.
+  Lemma K_sb_ra_diff e s : sb_ra_diff N e s = Rfmod (Rabs (e - s)) (2 * PI).
+  Proof. unfold sb_ra_diff, N. num_R. reflexivity. Qed.
+  Lemma K_sb_b_ra_diff e s : sb_b_ra_diff N e s = Rfmod (Rabs (e - s)) (2 * PI).
+  Proof. unfold sb_b_ra_diff, N. num_R. reflexivity. Qed.
   Lemma K_sb_ra_mod x : sb_ra_mod N x = wrapd x.
   Proof. unfold sb_ra_mod, wrapd, N. num_R. reflexivity. Qed.
   Lemma K_sb_b_ra_mod x : sb_b_ra_mod N x = wrapd x.
@@ -54,7 +50,7 @@ Section R.
   Proof. reflexivity. Qed.
   Lemma K_sb_b_mask_ra x h : sb_b_mask_ra N x h = Rltb x h.
   Proof. reflexivity. Qed.
-  Lemma K_sb_mask_dec e lo hi : sb_mask_dec N e lo hi = Rltb lo e && Rltb e hi.
+  Lemma K_sb_mask_dec e s d : sb_mask_dec N e s d = Rltb (s - d) e && Rltb e (s + d).
   Proof. reflexivity. Qed.
   Lemma K_pf_mask psi f : pf_mask N psi f = Rltb psi f.
   Proof. reflexivity. Qed.
@@ -74,30 +70,28 @@ Section R.
   (* ---------------------------------------------------------------- *)
   (* the criteria in closed form                                       *)
 
-  Lemma dec_crit_R d s e :
-    dec_crit N d s e = true <-> Rmax (- PI / 2) (s - d) < e < Rmin (s + d) (PI / 2).
+  Lemma dec_crit_R d s e : dec_crit N d s e = true <-> s - d < e < s + d.
+  Proof. unfold dec_crit. rewrite K_db_mask_dec, andb_true_iff, !Rltb_true. tauto. Qed.
+
+  (* the documented criterion: declination within delta of the source's *)
+  Lemma dec_crit_abs d s e : dec_crit N d s e = true <-> Rabs (e - s) < d.
   Proof.
-    unfold dec_crit. rewrite K_db_mask_dec, K_db_dec_minus, K_db_dec_plus.
-    rewrite andb_true_iff, !Rltb_true. tauto.
+    rewrite dec_crit_R. split.
+    - intros (H1 & H2). apply Rabs_def1; lra.
+    - intros H. apply Rabs_def2 in H. lra.
   Qed.
 
   (* DecBand and SpatialBox use the same declination criterion *)
   Lemma box_dec_crit_R d s e : box_dec_crit N d s e = dec_crit N d s e.
-  Proof.
-    unfold box_dec_crit, dec_crit.
-    now rewrite K_sb_mask_dec, K_db_mask_dec, K_sb_dec_minus, K_sb_dec_plus, K_db_dec_minus, K_db_dec_plus.
-  Qed.
+  Proof. unfold box_dec_crit, dec_crit. now rewrite K_sb_mask_dec, K_db_mask_dec. Qed.
 
-  (* the band never leaves [-pi/2, pi/2] *)
+  (* the band used for the RA half width never leaves [-pi/2, pi/2] *)
   Lemma band_in_range s d :
-    - PI / 2 <= db_dec_minus N s d /\ db_dec_plus N s d <= PI / 2.
-  Proof. rewrite K_db_dec_minus, K_db_dec_plus. split; [apply Rmax_l|apply Rmin_r]. Qed.
-
-  (* hence an event is only ever selected with a declination strictly inside (-pi/2, pi/2) *)
-  Lemma dec_crit_open d s e : dec_crit N d s e = true -> - PI / 2 < e < PI / 2.
+    (- PI / 2 <= rb_dec_minus N s d /\ rb_dec_plus N s d <= PI / 2)
+    /\ (- PI / 2 <= sb_dec_minus N s d /\ sb_dec_plus N s d <= PI / 2).
   Proof.
-    rewrite dec_crit_R. intros (H1 & H2).
-    pose proof (Rmax_l (- PI / 2) (s - d)). pose proof (Rmin_r (s + d) (PI / 2)). lra.
+    rewrite K_rb_dec_minus, K_rb_dec_plus, K_sb_dec_minus, K_sb_dec_plus.
+    repeat split; try apply Rmax_l; apply Rmin_r.
   Qed.
 
   (* the two textual copies of the RA mask in SpatialBox (batched / unbatched) agree *)
@@ -163,45 +157,84 @@ Section R.
     split; [apply Rabs_pos|]. apply Rabs_le. lra.
   Qed.
 
-  (* both codings of the RA distance (np.mod in RABand, np.where in SpatialBox) agree
-     for right ascensions in [0, 2 pi) *)
-  Lemma ra_codings_agree e s :
-    0 <= e < 2 * PI -> 0 <= s < 2 * PI ->
-    rb_ra_dist N e s = sb_ra_mod N (sb_ra_diff N e s).
+  (* both codings of the RA distance (np.mod(d + pi) - pi in RABand; np.mod(|d|, 2 pi) folded by
+     np.where in SpatialBox) agree for ALL right ascensions, normalised or not *)
+  Lemma Rfmod_at x y (k : Z) T : 0 < y -> T = IZR k * y -> T <= x < T + y -> Rfmod x y = x - T.
+  Proof. intros Hy -> H. apply Rfmod_shift; [assumption|]. lra. Qed.
+
+  Lemma wrap_fold d : Rabs (Rfmod (d + PI) (2 * PI) - PI) = wrapd (Rfmod (Rabs d) (2 * PI)).
   Proof.
-    intros He Hs. pose proof PI_RGT_0 as P.
-    rewrite K_rb_ra_dist, K_sb_ra_mod, K_sb_ra_diff. unfold wrapd.
-    set (d := e - s). assert (Hd : - (2 * PI) < d < 2 * PI) by (unfold d; lra).
-    destruct (Rlt_le_dec d (- PI)) as [C1|C1].
-    - (* d in (-2pi, -pi) *)
-      rewrite (Rfmod_shift (d + PI) (2 * PI) (-1)) by lra.
-      rewrite (Rabs_left d) by lra.
-      destruct (Rleb PI (- d)) eqn:Eb; [|apply Rleb_false in Eb; lra].
-      rewrite Rabs_right by lra. lra.
-    - destruct (Rlt_le_dec d PI) as [C2|C2].
-      + (* d in [-pi, pi) *)
-        rewrite (Rfmod_shift (d + PI) (2 * PI) 0) by lra.
-        replace (d + PI - 0 * (2 * PI) - PI) with d by lra.
-        destruct (Rleb PI (Rabs d)) eqn:Eb; [|reflexivity].
-        apply Rleb_true in Eb. destruct (Rle_dec 0 d) as [Q|Q].
-        * rewrite Rabs_right in Eb by lra. lra.
-        * rewrite Rabs_left in * by lra. lra.
-      + (* d in [pi, 2pi) *)
-        rewrite (Rfmod_shift (d + PI) (2 * PI) 1) by lra.
-        rewrite (Rabs_right d) by lra.
-        destruct (Rleb PI d) eqn:Eb; [|apply Rleb_false in Eb; lra].
-        rewrite Rabs_left by lra. lra.
+    pose proof PI_RGT_0 as P. assert (Hy : 0 < 2 * PI) by lra.
+    set (k := Int_part ((d + PI) / (2 * PI))). set (T := IZR k * (2 * PI)).
+    assert (HT : T <= d + PI < T + 2 * PI).
+    { pose proof (Rfmod_range (d + PI) (2 * PI) Hy) as H. unfold Rfmod, Rfloor in H. fold k in H. unfold T. lra. }
+    rewrite (Rfmod_at (d + PI) (2 * PI) k T Hy eq_refl HT).
+    set (u := d - T). replace (d + PI - T - PI) with u by (unfold u; ring).
+    assert (Hu : - PI <= u < PI) by (unfold u; lra).
+    assert (W : forall m, 0 <= m < 2 * PI -> wrapd m = if Rle_dec PI m then 2 * PI - m else m).
+    { intros m _. unfold wrapd, Rleb. destruct (Rle_dec PI m); reflexivity. }
+    destruct (Z_le_gt_dec k (-1)) as [Kn|Kp].
+    - (* k <= -1 : d < 0 *)
+      apply IZR_le in Kn. assert (HTn : T <= - (2 * PI)) by (unfold T; nra).
+      rewrite (Rabs_left d) by (unfold u in Hu; lra).
+      destruct (Rle_dec u 0) as [U|U].
+      + rewrite (Rfmod_at (- d) (2 * PI) (- k) (- T) Hy) by (try (rewrite opp_IZR; unfold T; ring); unfold u in *; lra).
+        replace (- d - - T) with (- u) by (unfold u; ring). rewrite W by lra.
+        rewrite (Rabs_left1 u) by assumption. destruct (Rle_dec PI (- u)); lra.
+      + rewrite (Rfmod_at (- d) (2 * PI) (- k - 1) (- T - 2 * PI) Hy)
+          by (try (rewrite minus_IZR, opp_IZR; unfold T; ring); unfold u in *; lra).
+        replace (- d - (- T - 2 * PI)) with (2 * PI - u) by (unfold u; ring). rewrite W by lra.
+        rewrite (Rabs_right u) by lra. destruct (Rle_dec PI (2 * PI - u)); lra.
+    - destruct (Z.eq_dec k 0) as [K0|K0].
+      + (* k = 0 *)
+        assert (HT0 : T = 0) by (unfold T; rewrite K0; ring). assert (Hud : u = d) by (unfold u; lra).
+        rewrite Hud in *. destruct (Rle_dec 0 d) as [D|D].
+        * rewrite (Rabs_right d) by lra.
+          rewrite (Rfmod_at d (2 * PI) 0 0 Hy) by (try ring; lra). rewrite Rminus_0_r, W by lra.
+          destruct (Rle_dec PI d); lra.
+        * rewrite (Rabs_left d) by lra.
+          rewrite (Rfmod_at (- d) (2 * PI) 0 0 Hy) by (try ring; lra). rewrite Rminus_0_r, W by lra.
+          destruct (Rle_dec PI (- d)); lra.
+      + (* k >= 1 : d > 0 *)
+        assert (K1 : (1 <= k)%Z) by lia. apply IZR_le in K1. assert (HTp : 2 * PI <= T) by (unfold T; nra).
+        rewrite (Rabs_right d) by (unfold u in Hu; lra).
+        destruct (Rle_dec 0 u) as [U|U].
+        * rewrite (Rfmod_at d (2 * PI) k T Hy eq_refl) by (unfold u in *; lra). fold u. rewrite W by lra.
+          rewrite (Rabs_right u) by lra. destruct (Rle_dec PI u); lra.
+        * rewrite (Rfmod_at d (2 * PI) (k - 1) (T - 2 * PI) Hy)
+            by (try (rewrite minus_IZR; unfold T; ring); unfold u in *; lra).
+          replace (d - (T - 2 * PI)) with (u + 2 * PI) by (unfold u; ring). rewrite W by lra.
+          rewrite (Rabs_left u) by lra. destruct (Rle_dec PI (u + 2 * PI)); lra.
   Qed.
 
-  (* so RABand and the RA part of SpatialBox select the same pairs there *)
+  Lemma ra_codings_agree e s : rb_ra_dist N e s = sb_ra_mod N (sb_ra_diff N e s).
+  Proof. rewrite K_rb_ra_dist, K_sb_ra_mod, K_sb_ra_diff. apply wrap_fold. Qed.
+
+  (* so RABand and the RA part of SpatialBox select the same pairs, for all inputs *)
   Lemma raband_box_same d sra sdec era :
-    0 <= era < 2 * PI -> 0 <= sra < 2 * PI ->
     raband_crit N d sra sdec era = box_ra_crit N d sra sdec era.
   Proof.
-    intros He Hs. unfold raband_crit, box_ra_crit.
+    unfold raband_crit, box_ra_crit.
     pose proof (K_rb_mask_ra (rb_ra_dist N era sra) (rb_half N d sdec)) as A.
     pose proof (K_sb_mask_ra (sb_ra_mod N (sb_ra_diff N era sra)) (sb_half N d sdec)) as B.
-    pose proof (half_same d sdec) as H. pose proof (ra_codings_agree era sra He Hs) as C. congruence.
+    pose proof (half_same d sdec) as H. pose proof (ra_codings_agree era sra) as C. congruence.
+  Qed.
+
+  (* closed form of the RA criterion of both methods: the distance on the circle, i.e. the
+     distance of the RA difference to the nearest multiple of 2 pi, is below the half width *)
+  Lemma ra_dist_circle e s (k : Z) :
+    Rabs (e - s - IZR k * (2 * PI)) <= PI -> rb_ra_dist N e s = Rabs (e - s - IZR k * (2 * PI)).
+  Proof.
+    intros H0. pose proof PI_RGT_0 as P. rewrite K_rb_ra_dist.
+    assert (H : - PI <= e - s - IZR k * (2 * PI) <= PI)
+      by (unfold Rabs in H0; destruct (Rcase_abs (e - s - IZR k * (2 * PI))); lra).
+    destruct (Req_dec (e - s - IZR k * (2 * PI)) PI) as [Hp|Hp].
+    - rewrite (Rfmod_at (e - s + PI) (2 * PI) (k + 1) (IZR k * (2 * PI) + 2 * PI))
+        by (try (rewrite plus_IZR; ring); lra).
+      rewrite Hp. replace (e - s + PI - (IZR k * (2 * PI) + 2 * PI) - PI) with (- PI) by lra.
+      rewrite Rabs_Ropp. reflexivity.
+    - rewrite (Rfmod_at (e - s + PI) (2 * PI) k (IZR k * (2 * PI))) by (try reflexivity; lra).
+      f_equal. ring.
   Qed.
 
   (* angular_separation returns an angle in [0, pi] for all inputs *)
